@@ -131,7 +131,7 @@ _counter = [0]
 
 
 def run(exe, args, stdin_data=None, stdin_path=None, env=None, timeout=180, workdir=None, stats=None,
-        out_name=None, keep=False, tag="r", allow_timeout=False, prefill_stats=None):
+        out_name=None, keep=False, tag="r", allow_timeout=False, prefill_stats=None, stdin_chunk=None):
     """Run fastpasta. stats: 'json'|'toml' adds -S <file> -D <fmt>; out_name adds -o <file>.
     stdin_path feeds a file through a pipe (cat-like) so that the tool sees a pipe, not a file."""
     r = Run()
@@ -165,6 +165,21 @@ def run(exe, args, stdin_data=None, stdin_path=None, env=None, timeout=180, work
                 stdin_data = f.read()
         p = subprocess.Popen(argv, stdin=subprocess.PIPE if stdin_data is not None else subprocess.DEVNULL,
                              stdout=subprocess.PIPE, stderr=subprocess.PIPE, env=e, cwd=wd)
+        if stdin_chunk and stdin_data is not None:
+            # deliver the input in small pieces (a real upstream process does): short reads on the tool's side
+            import threading
+
+            def feed(data=stdin_data, fh=p.stdin):
+                try:
+                    for i in range(0, len(data), stdin_chunk):
+                        fh.write(data[i:i + stdin_chunk])
+                        fh.flush()
+                    fh.close()
+                except (BrokenPipeError, OSError, ValueError):
+                    pass
+            threading.Thread(target=feed, daemon=True).start()
+            stdin_data = None
+            p.stdin = None
         try:
             out, err = p.communicate(stdin_data, timeout=timeout)
         except subprocess.TimeoutExpired:
